@@ -3,6 +3,7 @@ import Anndb.Drive.Hnsw
 import Anndb.Drive.Partition
 import Anndb.Drive.Placement
 import Anndb.Drive.Routing
+import Anndb.Drive.Codec
 /-! `driver <engine>`: the executable Lean models behind a one-line-in, one-line-out protocol. -/
 def main (args : List String) : IO UInt32 := do
   let h ← IO.getStdin
@@ -13,4 +14,5 @@ def main (args : List String) : IO UInt32 := do
   | ["partition"] => Anndb.Drive.Partition.main h out; return 0
   | ["placement"] => Anndb.Drive.Placement.main h out; return 0
   | ["routing"] => Anndb.Drive.Routing.main h out; return 0
+  | ["codec"] => Anndb.Drive.Codec.main h out; return 0
   | _ => IO.eprintln "usage: driver <engine>"; return 2
